@@ -438,6 +438,15 @@ def run(out):
         out.evaluations += 1
         if back != n_:
             out.failures.append(('inverse', 'second2tick(tick2second(%d, %d, %d)) = %d' % (n_, tpb, tempo, back), {'component': 'inverse', 'case': [n_, tpb, tempo]}))
+    # ... for ANY positive tempo: also where a tick lasts less than a microsecond (tempo below ticks_per_beat), the corner in which a
+    # conversion that rounds to whole microseconds on the way loses ticks
+    for n_ in (1, 2, 3, 7, 100, 12345, 2 ** 20 + 1):
+        for tempo in (1, 2, 3, 10, 100, 500, 999, 1000, 60000, 16777215):
+            for tpb in (1, 2, 96, 480, 960, 32767):
+                back = mido.second2tick(mido.tick2second(n_, tpb, tempo), tpb, tempo)
+                out.evaluations += 1
+                if back != n_:
+                    out.failures.append(('inverse', 'second2tick(tick2second(%d, %d, %d)) = %d' % (n_, tpb, tempo, back), {'component': 'inverse', 'case': [n_, tpb, tempo]}))
     big = 2 ** 53 + 1
     if mido.second2tick(mido.tick2second(big, 480, 500000), 480, 500000) != big:
         out.failures.append(('second2tick.ticks>=2**53', 'second2tick(tick2second(2**53+1, 480, 500000)) != 2**53+1', {'component': 'inverse', 'case': [big, 480, 500000]}))
